@@ -199,7 +199,7 @@ def solve_main(objfun, x0, argsf, xl, xu, projections, npt, rhobeg, rhoend, maxf
                 exit_info = ExitInformation(EXIT_SUCCESS, "Objective is sufficiently small")
 
         if exit_info is not None:
-            xmin_eval_num = 0
+            xmin_eval_num = nx  # x0 is evaluation point number nx (1 on the first run)
             jacmin_eval_nums = np.array([0], dtype=int)
             return x0, r0_avg, sumsq(r0_avg), None, num_samples_run, nf, nx, nruns_so_far+1, exit_info, diagnostic_info, xmin_eval_num, jacmin_eval_nums
 
